@@ -49,7 +49,7 @@ pub fn postprocess(st: &H263State, w: usize, h: usize) -> Result<(), String> {
     Ok(())
 }
 
-fn cheap_intra(mode: Mode, version: u8, size: Size, q: u8, salt: usize) -> Pic {
+pub fn cheap_intra(mode: Mode, version: u8, size: Size, q: u8, salt: usize) -> Pic {
     let mut hdr = match mode {
         Mode::Sorenson => Header::sorenson(version, PicType::I, size, q),
         Mode::Standard => Header::standard(PicType::I, size, q),
